@@ -917,7 +917,16 @@ def r00(ctx, repo, files=None):
                                     r_.value, bool) or r_.value is Ellipsis)
                     ) and not isinstance(c.left, ast.Constant) \
                             and not (isinstance(r_, (ast.Name, ast.Attribute))
-                                     and U(r_) in ('self', 'cls')):
+                                     and U(r_) in ('self', 'cls')) \
+                            and any((isinstance(x_, ast.Call) and U(
+                                x_.func) != 'bool') or isinstance(
+                                x_, (ast.BinOp, ast.Subscript)) or (
+                                isinstance(x_, ast.Constant) and isinstance(
+                                    x_.value, (int, float, str))
+                                and not isinstance(x_.value, bool))
+                                for x_ in (c.left, r_)):
+                        # (two plain names may both hold booleans / the same
+                        # object on purpose; a computed value never does)
                         bad += 1
                         ctx.violation(
                             rule, repo.loc(c, cls, fn.name), construct,
